@@ -24,11 +24,15 @@ def run(ctx):
     variant = "fixed" if fixed else "orig"
     rng = ctx.rng
     thorough = ctx.tier == "thorough" or not ctx.proof_ok
-    ncases = 5000 if thorough else 500
+    ncases = 3000 if thorough else 500
+    ndeep = 800 if thorough else 0
     cases = L.corpus()
     ncorp = len(cases)
     for i in range(ncases):
         cases.append(L.gen_case(rng, rng.choice([6, 12, 25, 50, 90])))
+    for i in range(ndeep):
+        # thorough only: more connections, deeper callback nesting, longer histories, denser behaviour tables
+        cases.append(L.gen_case(rng, rng.choice([40, 90, 160, 300]), deep=True))
     impl, mod = L.execute(cases, exe, model, variant)
     opcount, cbcount, skipped = {}, {}, 0
     for ci, case in enumerate(cases):
@@ -69,11 +73,12 @@ def run(ctx):
                 "up to 3 actions: disconnect/ref/unref/event_send/response_send on self or any connection, qb_ipcs_destroy, "
                 "rate limit 0..4, iterate, iterate-and-disconnect); connect / request / client disconnect / client death on up "
                 "to 4 client slots; main-loop turn per connection; run queued jobs; the same actions from outside callbacks; "
-                "optional callback-nesting cut 0..3}; hand-made corpus first (boundary histories of DESIGN C04 and the five "
+                "optional callback-nesting cut 0..3}; thorough adds 'deep' histories (up to 6 slots, up to 300 ops, nesting cut up to "
+                "12, up to 7 actions per entry); hand-made corpus first (boundary histories of DESIGN C04 and the five "
                 "findings, both transports), then random; a case is non-trivial when >= 3 callbacks were invoked; distinct = "
                 "distinct scripts")
     res.samples = [{"script": c} for c in cases[:2] + cases[ncorp:ncorp + 2]]
-    res.extra = {"case_kinds": {"corpus": ncorp, "random": ncases}, "ops_by_kind": opcount, "callbacks_by_kind": cbcount,
+    res.extra = {"case_kinds": {"corpus": ncorp, "random": ncases, "random_deep": ndeep}, "ops_by_kind": opcount, "callbacks_by_kind": cbcount,
                  "actions_skipped_by_guard": skipped, "model_variant": variant,
                  "tree_carries_fix_C04": fixed,
                  "monitor": "independent Python statement of C04 over the implementation log (vlib/ipclife.py: monitor) + ASan/UBSan"}
